@@ -226,6 +226,67 @@ namespace
         }
     };
 
+    // the same allocator as an *empty* class that declares itself stateful (its state lives elsewhere, e.g. in a global arena):
+    // is_stateful, not emptiness, decides whether the wrapper needs its mutex
+    struct mon_alloc_empty
+    {
+        using is_stateful = std::true_type;
+        static int*& counter()
+        {
+            static int* c = nullptr;
+            return c;
+        }
+        mon_alloc impl() const
+        {
+            return mon_alloc(counter());
+        }
+        void* allocate_node(std::size_t size, std::size_t al)
+        {
+            return impl().allocate_node(size, al);
+        }
+        void* allocate_array(std::size_t c, std::size_t size, std::size_t al)
+        {
+            return impl().allocate_array(c, size, al);
+        }
+        void deallocate_node(void* p, std::size_t size, std::size_t al) noexcept
+        {
+            impl().deallocate_node(p, size, al);
+        }
+        void deallocate_array(void* p, std::size_t c, std::size_t size, std::size_t al) noexcept
+        {
+            impl().deallocate_array(p, c, size, al);
+        }
+        void* try_allocate_node(std::size_t size, std::size_t al) noexcept
+        {
+            return impl().try_allocate_node(size, al);
+        }
+        void* try_allocate_array(std::size_t c, std::size_t size, std::size_t al) noexcept
+        {
+            return impl().try_allocate_array(c, size, al);
+        }
+        bool try_deallocate_node(void* p, std::size_t size, std::size_t al) noexcept
+        {
+            return impl().try_deallocate_node(p, size, al);
+        }
+        bool try_deallocate_array(void* p, std::size_t c, std::size_t size, std::size_t al) noexcept
+        {
+            return impl().try_deallocate_array(p, c, size, al);
+        }
+        std::size_t max_node_size() const
+        {
+            return impl().max_node_size();
+        }
+        std::size_t max_array_size() const
+        {
+            return impl().max_array_size();
+        }
+        std::size_t max_alignment() const
+        {
+            return impl().max_alignment();
+        }
+    };
+    static_assert(std::is_empty<mon_alloc_empty>::value, "");
+
     // one thread's work on a (wrapped) allocator S
     template <class S>
     void hammer(S& s, std::uint64_t seed, int ops, bool use_proxy)
@@ -252,7 +313,11 @@ namespace
             case 1:
                 try
                 {
-                    mine.push_back({tr::allocate_array(s, 3, 8, 8), 1});
+                    // (one-element arrays too: an array of one is still an array request)
+                    if (r.chance(35))
+                        mine.push_back({tr::allocate_array(s, 1, 24, 8), 4});
+                    else
+                        mine.push_back({tr::allocate_array(s, 3, 8, 8), 1});
                 }
                 catch (std::bad_alloc&)
                 {
@@ -283,6 +348,8 @@ namespace
                         tr::deallocate_node(s, e.first, 24, 8);
                     else if (e.second == 1)
                         tr::deallocate_array(s, e.first, 3, 8, 8);
+                    else if (e.second == 4)
+                        tr::deallocate_array(s, e.first, 1, 24, 8);
                     else if (!(e.second == 2 ? ctr::try_deallocate_node(s, e.first, 24, 8) : ctr::try_deallocate_array(s, e.first, 3, 8, 8)))
                     {
                         M().try_gave_up.fetch_add(1);
@@ -337,6 +404,8 @@ namespace
         for (auto& e : mine)
             if (e.second == 0 || e.second == 2)
                 tr::deallocate_node(s, e.first, 24, 8);
+            else if (e.second == 4)
+                tr::deallocate_array(s, e.first, 1, 24, 8);
             else
                 tr::deallocate_array(s, e.first, 3, 8, 8);
         t_rng = nullptr;
@@ -375,7 +444,7 @@ namespace
                  m.overlaps.load(), member_name(m.first_bad_member.load() < 0 ? 11 : m.first_bad_member.load()));
         count("wrapped_allocator_refusals", m.refusals.load());
         // (a wrapper that cannot be used after its allocator refused a request also breaks C03's "able to serve later valid requests")
-        also_scope as("C03", "C13");
+        also_scope as("C03+C10", "C13");
         if (m.held_after_exception.load())
             viol("C13", "C13/" + kind + "/lock-held-after-exception",
                  "%ld of %ld times an exception thrown by the wrapped allocator left the calling thread holding the mutex", m.held_after_exception.load(),
@@ -390,8 +459,8 @@ namespace
     void mutex_group(const args& a)
     {
         static const char* kinds[] = {"direct_storage+monitor-mutex", "reference_storage+monitor-mutex", "any_reference+monitor-mutex",
-                                      "direct_storage+std::mutex"};
-        for (int k = 0; k < 4; ++k)
+                                      "direct_storage+std::mutex", "empty-stateful-allocator+monitor-mutex"};
+        for (int k = 0; k < 5; ++k)
         {
             std::string kind = kinds[k];
             if (a.kind != "all" && a.kind != kind)
@@ -423,9 +492,15 @@ namespace
                         allocator_storage<reference_storage<any_allocator>, mon_mutex> s(inner);
                         run_threads(s, nthreads, ops, seed, false);
                     }
-                    else
+                    else if (k == 3)
                     {
                         thread_safe_allocator<mon_alloc, std::mutex> s{mon_alloc(&counter)};
+                        run_threads(s, nthreads, ops, seed, true);
+                    }
+                    else
+                    {
+                        mon_alloc_empty::counter() = &counter;
+                        thread_safe_allocator<mon_alloc_empty, mon_mutex> s{mon_alloc_empty{}};
                         run_threads(s, nthreads, ops, seed, true);
                     }
                     judge_monitor(kind, true);
@@ -783,6 +858,8 @@ namespace
         std::set<std::uint64_t> interleavings;
         for (long c = a.from; c < a.to; ++c)
             run_case(kind, c, [&] {
+                // a stack that is lost from the list is never reused and never freed: its blocks are not given back (C05)
+                also_scope lost_blocks("C05", "C14");
                 auto r        = case_rng(a.seed, a.group, kind, c);
                 int  nthreads = int(r.range(2, std::size_t(a.num("maxthreads", 3))));
                 int  waves    = int(r.range(1, 2)); // a second wave of threads starts after the first has been joined: reuse
@@ -840,6 +917,8 @@ namespace
                 continue;
             for (long c = a.from; c < a.to; ++c)
                 run_case(kind, c, [&] {
+                    // a stack that is lost from the list is never reused and never freed: its blocks are not given back (C05)
+                    also_scope lost_blocks("C05", "C14");
                     auto  r = case_rng(a.seed, a.group, kind, c);
                     evlog log;
                     if (k == 0)
@@ -1043,6 +1122,8 @@ namespace
                 continue;
             for (long c = a.from; c < a.to; ++c)
                 run_case(kind, c, [&] {
+                    // a stack that is lost from the list is never reused and never freed: its blocks are not given back (C05)
+                    also_scope lost_blocks("C05", "C14");
                     auto r    = case_rng(a.seed, a.group, kind, c);
                     int  n    = int(r.range(1, 4));
                     auto seed = r.next();
